@@ -3,9 +3,9 @@
 Theorems: lean/PersimVerif/Props/C14.lean (model lean/PersimVerif/Model/Heat.lean at the reals with Real.exp).
 Tie: `persim.heat.evalHeatKernel` / `heat` vs the same model executed at Float (driver op `heat`): the three kernel
      values, the radicand k(F,F)+k(G,G)-2k(F,G) and the clamped root.
-[T]: the laws of the statement evaluated directly on the real code — finite, >= 0, never NaN (the pre-fix failure on
-     reordered equal diagrams), zero for reorderings, symmetry, diagonal points, diagonal translation, and the clauses that
-     are NOT decided by a theorem: triangle inequality and `<= W1/(4 sigma sqrt(pi))` (reference: persim's wasserstein).
+[T]: the laws of the statement evaluated directly on the real code (rounding is outside every theorem) — finite, >= 0,
+     never NaN (the pre-fix failure on reordered equal diagrams), zero for reorderings, symmetry, diagonal points,
+     diagonal translation, triangle inequality and `<= W1/(4 sigma sqrt(pi))` (reference: persim's wasserstein).
 """
 import math
 import numpy as np
@@ -377,18 +377,20 @@ def replay(ctx, rep):
 
 
 MANIFEST = {
-    "text": "Proof, partial: Lean theorems about the model of evalHeatKernel/heat over the reals (Real.exp), for diagrams of every "
-            "size and every sigma > 0: the kernel is symmetric, invariant under reordering either argument, gets no contribution "
-            "from points on the diagonal, and is unchanged when both diagrams are translated along the diagonal; hence the squared "
-            "distance k(F,F)+k(G,G)-2k(F,G) is 0 between reorderings, symmetric, ignores diagonal points and is translation "
-            "invariant; after the fix the radicand passed to sqrt is clamped, so heat is a well-defined number >= 0 (never NaN) by "
-            "construction. NOT decided by proof (tests only): positive semi-definiteness of the kernel (dist^2 >= 0 without the "
-            "clamp), the triangle inequality, and the stability bound <= W1/(4 sigma sqrt(pi)) — these need the RKHS/heat-semigroup "
-            "argument of Reininghaus et al., which is not available in Mathlib. The model is tied to the code on every run by "
-            "executing it at Float against evalHeatKernel/heat (kernel values and radicand to 1e-9), and all laws including the "
-            "unproved ones are evaluated on the real code as tests (reference for W1: persim's wasserstein).",
+    "text": "Proof: Lean theorems about the model of evalHeatKernel/heat over the reals (Real.exp), for diagrams of every size and "
+            "every sigma > 0: the value is sqrt(max(k(F,F)+k(G,G)-2k(F,G),0)) for the multi-scale kernel; the kernel is symmetric, "
+            "invariant under reordering either argument, gets no contribution from points on the diagonal and is unchanged when both "
+            "diagrams are translated along the diagonal, hence the distance is 0 between reorderings, symmetric, ignores diagonal "
+            "points and is translation invariant; the radicand passed to sqrt is clamped, so heat is a well-defined number >= 0 "
+            "(never NaN) by construction. Beyond the design's plan the analytic clauses are proved too: the kernel is positive "
+            "semi-definite (Gaussian kernel PSD via its power series), so over the reals the clamp is a no-op; the triangle "
+            "inequality (Cauchy-Schwarz/Minkowski for the PSD form); and the stability bound heat <= W1/(4 sigma sqrt(pi)) against "
+            "every partial matching (Euclidean ground metric). The model is tied to the code on every run by executing it at Float "
+            "against evalHeatKernel/heat (kernel values and radicand to 1e-9 plus a rounding floor), against an independent "
+            "definition, and all laws are evaluated on the real code as tests.",
     "note": "Trusted: Lean kernel + Mathlib, axioms propext/Classical.choice/Quot.sound; the correspondence harness; np.exp/np.sqrt "
-            "as Real.exp/sqrt up to rounding; persim.wasserstein as the W1 reference of the stability test. Theorems are "
-            "exact-arithmetic; the pre-fix NaN was a rounding effect and is guarded by the [T] stream on reordered equal diagrams.",
+            "as Real.exp/sqrt up to rounding; persim.wasserstein (where accurate, else a difference-based W1) as the reference of the "
+            "stability test. Theorems are exact-arithmetic; the pre-fix NaN was a rounding effect (negative radicand -1e-17) and is "
+            "guarded only by the [T] stream on reordered equal and nearly equal diagrams.",
     "technique": "Lean 4 theorems over a hand-written model + differential correspondence with the real code + metamorphic tests",
 }
